@@ -77,6 +77,7 @@ package snow3g
 
 //@ func GetKeyStream(k, iv, n) (r)
 //@   requires 0 <= n && n < 0x10000000
+//@   assigns nothing
 //@   specfuel 999
 //@   opaque SnowWorkZ, SnowInit
 //@   ensures len(r) == n
